@@ -346,3 +346,41 @@ Proof.
   intros H. inversion H as [|bz tag r1 len r2 E1 H1 H5 Hm E2 Hl Hk]; subst.
   vm_compute in E1. injection E1 as <- <-. vm_compute in H5. apply H5. reflexivity.
 Qed.
+
+(** * fuel: the strict pass never runs out of fuel (each iteration consumes at least the tag byte) *)
+
+Lemma pw_varint_aux_shorter k : forall shift acc b v r,
+  pw_varint_aux k shift acc b = Some (v, r) -> (length r < length b)%nat.
+Proof.
+  induction k as [|k IH]; intros shift acc b v r H; destruct b as [|c b']; try discriminate; cbn [pw_varint_aux] in H.
+  - destruct (byteN c <? 2); [|discriminate]. injection H as _ <-. cbn. lia.
+  - destruct (byteN c <? 128).
+    + injection H as _ <-. cbn. lia.
+    + apply IH in H. cbn. lia.
+Qed.
+
+Lemma reject_fuel_indep n : forall bz f g,
+  (length bz <= n)%nat -> (n <= f)%nat -> (n <= g)%nat -> reject_unknown_aux f bz = reject_unknown_aux g bz.
+Proof.
+  induction n as [|n IH]; intros bz f g Hl Hf Hg.
+  - destruct bz; [|cbn in Hl; lia]. destruct f, g; reflexivity.
+  - destruct bz as [|c bz]; [destruct f, g; reflexivity|].
+    destruct f as [|f]; [lia|]. destruct g as [|g]; [lia|].
+    cbn [reject_unknown_aux].
+    destruct (pw_varint (c :: bz)) as [[tag r1]|] eqn:E1; [|reflexivity].
+    destruct (2147483647 <? tag / 8); [reflexivity|].
+    destruct (tag / 8 <? 1); [reflexivity|].
+    destruct (tag / 8 <=? 5); [|reflexivity].
+    destruct (tag mod 8 =? 2); [|reflexivity].
+    destruct (pw_varint r1) as [[len r2]|] eqn:E2; [|reflexivity].
+    destruct (blen r2 <? len); [reflexivity|].
+    apply pw_varint_aux_shorter in E1. apply pw_varint_aux_shorter in E2.
+    apply IH; try lia.
+    rewrite skipn_length. cbn [length] in *. lia.
+Qed.
+
+(** with fuel = input length the [O] branch of [reject_unknown_aux] is never the reason for a rejection:
+    any larger fuel gives the same verdict *)
+Theorem reject_unknown_fuel_sufficient bz f :
+  (length bz <= f)%nat -> reject_unknown_aux f bz = reject_unknown bz.
+Proof. intros H. unfold reject_unknown. apply (reject_fuel_indep (length bz)); lia. Qed.
